@@ -3,4 +3,584 @@ import DC.Model.Check
 
 namespace DC.Check
 
+/-- what the fixing row pass does to one row (given the files on disk) -/
+def fixRow (files : List FsFile) (r : CRow) : Option CRow :=
+  match r.file with
+  | none => some r
+  | some f =>
+    match files.find? (·.id == f) with
+    | some ff => some { r with size := ff.size }
+    | none => none
+
+/-- the warnings of the row pass, as a function of the files and the row list only -/
+def rowWarns (files : List FsFile) : List CRow → List Warn
+  | [] => []
+  | r :: rest =>
+    match r.file with
+    | none => rowWarns files rest
+    | some f =>
+      match files.find? (·.id == f) with
+      | some ff =>
+        if ff.size != r.size then .wrongSize r.rowid ff.size r.size :: rowWarns files rest
+        else rowWarns files rest
+      | none => .notFound r.rowid :: rowWarns files rest
+
+theorem check_eq (fix : Bool) (s : St) : check fix s =
+    (let named := s.rows.filterMap (·.file)
+     let r1 := rowPass fix s s.rows
+     let r2 := filePass fix named r1.1
+     let r3 := dirPass fix r2.1
+     let r4 := counterPass fix r3.1
+     (r4.1, r1.2 ++ r2.2 ++ r3.2 ++ r4.2)) := rfl
+
+theorem rowPass_cons (fix : Bool) (t : St) (r : CRow) (rest : List CRow) :
+    rowPass fix t (r :: rest) =
+    match r.file with
+    | none => rowPass fix t rest
+    | some f =>
+      match fileOf t f with
+      | some ff =>
+        if ff.size != r.size then
+          let t' := if fix then
+            { t with rows := t.rows.map (fun x => if x.rowid == r.rowid then { x with size := ff.size } else x), size := t.size + ff.size - r.size } else t
+          ((rowPass fix t' rest).1, .wrongSize r.rowid ff.size r.size :: (rowPass fix t' rest).2)
+        else rowPass fix t rest
+      | none =>
+        let t' := if fix then
+          { t with rows := t.rows.filter (·.rowid != r.rowid), count := t.count - 1, size := t.size - r.size }
+          else t
+        ((rowPass fix t' rest).1, .notFound r.rowid :: (rowPass fix t' rest).2) := rfl
+
+
+theorem rowPass_frame (fix : Bool) (rows : List CRow) : ∀ t : St,
+    (rowPass fix t rows).1.files = t.files ∧ (rowPass fix t rows).1.dirs1 = t.dirs1 ∧
+    (rowPass fix t rows).1.dirs2 = t.dirs2 := by
+  induction rows with
+  | nil => intro t; simp [rowPass]
+  | cons r rest ih =>
+    intro t
+    rw [rowPass_cons]
+    split
+    · exact ih t
+    · split
+      · split
+        · cases fix <;> simp [ih]
+        · exact ih t
+      · cases fix <;> simp [ih]
+
+theorem rowPass_nofix (rows : List CRow) (t : St) : (rowPass false t rows).1 = t := by
+  induction rows with
+  | nil => simp [rowPass]
+  | cons r rest ih =>
+    rw [rowPass_cons]
+    split
+    · exact ih
+    · split
+      · split
+        · simpa using ih
+        · exact ih
+      · simpa using ih
+
+theorem rowPass_warns (fix : Bool) (rows : List CRow) : ∀ t : St,
+    (rowPass fix t rows).2 = rowWarns t.files rows := by
+  induction rows with
+  | nil => intro t; simp [rowPass, rowWarns]
+  | cons r rest ih =>
+    intro t
+    rw [rowPass_cons, rowWarns]
+    unfold fileOf
+    split
+    · exact ih t
+    · split
+      · split
+        · cases fix <;> simp [ih]
+        · exact ih t
+      · cases fix <;> simp [ih]
+
+
+theorem map_upd_of_ne (l : List CRow) (k z : Nat) (h : ∀ x ∈ l, x.rowid ≠ k) :
+    l.map (fun x => if x.rowid == k then { x with size := z } else x) = l := by
+  induction l with
+  | nil => rfl
+  | cons a l ih =>
+    simp only [List.mem_cons, forall_eq_or_imp] at h
+    rw [List.map_cons, ih h.2]; simp [h.1]
+
+theorem filter_of_ne (l : List CRow) (k : Nat) (h : ∀ x ∈ l, x.rowid ≠ k) :
+    l.filter (·.rowid != k) = l := by
+  induction l with
+  | nil => rfl
+  | cons a l ih =>
+    simp only [List.mem_cons, forall_eq_or_imp] at h
+    simp [h.1, ih h.2]
+
+@[simp] theorem sumSizes_nil : sumSizes [] = 0 := rfl
+@[simp] theorem sumSizes_cons (r : CRow) (l : List CRow) : sumSizes (r :: l) = r.size + sumSizes l := by
+  simp [sumSizes]
+@[simp] theorem sumSizes_append (a b : List CRow) : sumSizes (a ++ b) = sumSizes a + sumSizes b := by
+  simp [sumSizes]
+
+theorem fixRow_none {files : List FsFile} {r : CRow} (h : r.file = none) : fixRow files r = some r := by
+  simp [fixRow, h]
+
+theorem fixRow_found {files : List FsFile} {r : CRow} {f : Nat} {ff : FsFile} (h : r.file = some f)
+    (h2 : files.find? (·.id == f) = some ff) : fixRow files r = some { r with size := ff.size } := by
+  simp [fixRow, h, h2]
+
+theorem fixRow_missing {files : List FsFile} {r : CRow} {f : Nat} (h : r.file = some f)
+    (h2 : files.find? (·.id == f) = none) : fixRow files r = none := by
+  simp only [fixRow, h, h2]
+
+theorem rowPass_none {fix : Bool} {t : St} {r : CRow} {rest : List CRow} (h : r.file = none) :
+    rowPass fix t (r :: rest) = rowPass fix t rest := by
+  rw [rowPass_cons]; simp only [h]
+
+theorem rowPass_ok {fix : Bool} {t : St} {r : CRow} {rest : List CRow} {f : Nat} {ff : FsFile}
+    (h : r.file = some f) (h2 : t.files.find? (·.id == f) = some ff) (h3 : ff.size = r.size) :
+    rowPass fix t (r :: rest) = rowPass fix t rest := by
+  rw [rowPass_cons]; simp only [h, fileOf, h2, h3]; simp
+
+theorem rowPass_wrong {t : St} {r : CRow} {rest : List CRow} {f : Nat} {ff : FsFile}
+    (h : r.file = some f) (h2 : t.files.find? (·.id == f) = some ff) (h3 : ff.size ≠ r.size) :
+    rowPass true t (r :: rest) =
+      ((rowPass true { t with rows := t.rows.map (fun x => if x.rowid == r.rowid then { x with size := ff.size } else x), size := t.size + ff.size - r.size } rest).1,
+       .wrongSize r.rowid ff.size r.size ::
+       (rowPass true { t with rows := t.rows.map (fun x => if x.rowid == r.rowid then { x with size := ff.size } else x), size := t.size + ff.size - r.size } rest).2) := by
+  rw [rowPass_cons]; simp only [h, fileOf, h2]; simp [h3]
+
+theorem rowPass_missing {t : St} {r : CRow} {rest : List CRow} {f : Nat}
+    (h : r.file = some f) (h2 : t.files.find? (·.id == f) = none) :
+    rowPass true t (r :: rest) =
+      ((rowPass true { t with rows := t.rows.filter (·.rowid != r.rowid), count := t.count - 1, size := t.size - r.size } rest).1,
+       .notFound r.rowid ::
+       (rowPass true { t with rows := t.rows.filter (·.rowid != r.rowid), count := t.count - 1, size := t.size - r.size } rest).2) := by
+  rw [rowPass_cons]; simp only [h, fileOf, h2]; simp
+
+theorem rowPass_fix (rows : List CRow) : ∀ (t : St) (done : List CRow),
+    t.rows = done ++ rows → (rows.map (·.rowid)).Nodup →
+    (∀ x ∈ done, ∀ y ∈ rows, x.rowid ≠ y.rowid) →
+    (rowPass true t rows).1.rows = done ++ rows.filterMap (fixRow t.files) ∧
+    (rowPass true t rows).1.count - ((rowPass true t rows).1.rows.length : Int)
+      = t.count - (t.rows.length : Int) ∧
+    (rowPass true t rows).1.size - sumSizes (rowPass true t rows).1.rows
+      = t.size - sumSizes t.rows := by
+  induction rows with
+  | nil => intro t done h _ _; simp [rowPass, h]
+  | cons r rest ih =>
+    intro t done h nd dis
+    simp only [List.map_cons, List.nodup_cons, List.mem_map, not_exists, not_and] at nd
+    have hr : ∀ y ∈ rest, r.rowid ≠ y.rowid := fun y hy e => nd.1 y hy e.symm
+    have hr' : ∀ y ∈ rest, y.rowid ≠ r.rowid := fun y hy e => nd.1 y hy e
+    have hd : ∀ x ∈ done, x.rowid ≠ r.rowid := fun x hx => dis x hx r (by simp)
+    have dis0 : ∀ x ∈ done, ∀ y ∈ rest, x.rowid ≠ y.rowid :=
+      fun x hx y hy => dis x hx y (by simp [hy])
+    have dis' : ∀ r' : CRow, r'.rowid = r.rowid → ∀ x ∈ done ++ [r'], ∀ y ∈ rest, x.rowid ≠ y.rowid := by
+      intro r' e x hx y hy
+      rcases List.mem_append.1 hx with hx | hx
+      · exact dis0 x hx y hy
+      · simp only [List.mem_singleton] at hx; subst hx; rw [e]; exact hr y hy
+    have keep := ih t (done ++ [r]) (by simp [h]) nd.2 (dis' r rfl)
+    cases hf : r.file with
+    | none =>
+      rw [rowPass_none hf, List.filterMap_cons, fixRow_none hf]
+      simpa using keep
+    | some f =>
+      cases hff : t.files.find? (·.id == f) with
+      | some ff =>
+        by_cases hsz : ff.size = r.size
+        · rw [rowPass_ok hf hff hsz, List.filterMap_cons, fixRow_found hf hff]
+          have e : ({ r with size := ff.size } : CRow) = r := by rw [hsz]
+          rw [e]
+          simpa using keep
+        · rw [rowPass_wrong hf hff hsz, List.filterMap_cons, fixRow_found hf hff]
+          have hrows : t.rows.map (fun x => if x.rowid == r.rowid then { x with size := ff.size } else x)
+              = (done ++ [{ r with size := ff.size }]) ++ rest := by
+            simp only [h, List.map_append, List.map_cons, beq_self_eq_true, if_true]
+            rw [map_upd_of_ne done _ _ hd, map_upd_of_ne rest _ _ hr']
+            simp
+          have := ih { t with rows := t.rows.map (fun x => if x.rowid == r.rowid then { x with size := ff.size } else x), size := t.size + ff.size - r.size } (done ++ [{ r with size := ff.size }])
+            hrows nd.2 (dis' _ rfl)
+          obtain ⟨h1, h2, h3⟩ := this
+          simp only [] at h1 h2 h3 ⊢
+          refine ⟨by simpa using h1, ?_, ?_⟩
+          · rw [h2]; simp
+          · rw [h3, hrows, h]; simp; omega
+      | none =>
+        rw [rowPass_missing hf hff, List.filterMap_cons, fixRow_missing hf hff]
+        have hrows : t.rows.filter (·.rowid != r.rowid) = done ++ rest := by
+          simp only [h, List.filter_append, List.filter_cons]
+          rw [filter_of_ne done _ hd, filter_of_ne rest _ hr']
+          simp
+        have := ih { t with rows := t.rows.filter (·.rowid != r.rowid), count := t.count - 1, size := t.size - r.size } done
+          hrows nd.2 dis0
+        obtain ⟨h1, h2, h3⟩ := this
+        simp only [] at h1 h2 h3 ⊢
+        refine ⟨by simpa using h1, ?_, ?_⟩
+        · rw [h2, hrows, h]; simp; omega
+        · rw [h3, hrows, h]; simp; omega
+
+
+/-! ### the other passes -/
+
+theorem filePass_fst_false (named : List Nat) (s : St) : (filePass false named s).1 = s := rfl
+
+theorem filePass_fst_true (named : List Nat) (s : St) :
+    (filePass true named s).1 = { s with files := s.files.filter (fun f => named.contains f.id) } := rfl
+
+theorem filePass_snd (fix : Bool) (named : List Nat) (s : St) :
+    (filePass fix named s).2 = (s.files.filter (fun f => !named.contains f.id)).map (fun f => .unknown f.id) := rfl
+
+theorem dirPass_fst_false (s : St) : (dirPass false s).1 = s := rfl
+
+theorem dirPass_fst_true (s : St) :
+    (dirPass true s).1 = { s with
+      dirs2 := s.dirs2.filter (fun d => !dir2Empty s d),
+      dirs1 := s.dirs1.filter (fun d =>
+        (s.dirs2.filter (fun d => !dir2Empty s d)).any (·.1 == d) || s.files.any (·.d1 == d)) } := by
+  simp only [dirPass, if_true]
+  congr 1
+  apply List.filter_congr
+  intro d hd
+  simp [hd]
+  grind
+
+theorem dirPass_snd_false (s : St) :
+    (dirPass false s).2 = (s.dirs2.filter (dir2Empty s)).map (fun d => .emptyDir2 d.1 d.2) ++
+      (s.dirs1.filter (fun d => !s.dirs2.any (·.1 == d) && !s.files.any (·.d1 == d))).map .emptyDir1 := rfl
+
+theorem dirPass_snd_true (s : St) :
+    (dirPass true s).2 = (s.dirs2.filter (dir2Empty s)).map (fun d => .emptyDir2 d.1 d.2) ++
+      (s.dirs1.filter (fun d => !(s.dirs2.filter (fun d => !dir2Empty s d)).any (·.1 == d) &&
+          !s.files.any (·.d1 == d))).map .emptyDir1 := rfl
+
+theorem counterPass_fst_false (s : St) : (counterPass false s).1 = s := by
+  unfold counterPass
+  by_cases h1 : s.count = s.rows.length <;> by_cases h2 : s.size = sumSizes s.rows <;> simp [h1, h2]
+
+theorem counterPass_fst_true (s : St) :
+    (counterPass true s).1 = { s with count := s.rows.length, size := sumSizes s.rows } := by
+  unfold counterPass
+  by_cases h1 : s.count = s.rows.length <;> by_cases h2 : s.size = sumSizes s.rows <;> simp [h1, h2]
+  all_goals (cases s; simp_all)
+
+theorem counterPass_snd (fix : Bool) (s : St) :
+    (counterPass fix s).2 =
+      (if s.count = s.rows.length then [] else [Warn.count s.count s.rows.length]) ++
+      (if s.size = sumSizes s.rows then [] else [Warn.size s.size (sumSizes s.rows)]) := by
+  unfold counterPass
+  by_cases h1 : s.count = s.rows.length <;> by_cases h2 : s.size = sumSizes s.rows <;>
+    cases fix <;> simp [h1, h2]
+
+
+/-! ### lookups by file id -/
+
+theorem find_id_some {files : List FsFile} {f : Nat} {ff : FsFile}
+    (h : files.find? (·.id == f) = some ff) : ff ∈ files ∧ ff.id = f :=
+  ⟨List.mem_of_find?_eq_some h, by simpa using List.find?_some h⟩
+
+theorem find_id_of_mem {files : List FsFile} (nd : (files.map (·.id)).Nodup) {ff : FsFile}
+    (hm : ff ∈ files) : files.find? (·.id == ff.id) = some ff := by
+  induction files with
+  | nil => cases hm
+  | cons a l ih =>
+    simp only [List.map_cons, List.nodup_cons, List.mem_map, not_exists, not_and] at nd
+    rcases List.mem_cons.1 hm with rfl | hm
+    · simp
+    · have : a.id ≠ ff.id := fun e => nd.1 ff hm e.symm
+      simp [this, ih nd.2 hm]
+
+theorem find_id_isSome_of_mem {files : List FsFile} {ff : FsFile} (hm : ff ∈ files) :
+    ∃ ff', files.find? (·.id == ff.id) = some ff' := by
+  cases h : files.find? (·.id == ff.id) with
+  | some x => exact ⟨x, rfl⟩
+  | none =>
+    rw [List.find?_eq_none] at h
+    exact absurd (h ff hm) (by simp)
+
+/-! ### the state after `check true` -/
+
+theorem check_true_fst (s : St) (hnd : (s.rows.map (·.rowid)).Nodup) :
+    (check true s).1 =
+      { rows := s.rows.filterMap (fixRow s.files),
+        count := (s.rows.filterMap (fixRow s.files)).length,
+        size := sumSizes (s.rows.filterMap (fixRow s.files)),
+        files := s.files.filter (fun f => (s.rows.filterMap (·.file)).contains f.id),
+        dirs2 := s.dirs2.filter (fun d =>
+          (s.files.filter (fun f => (s.rows.filterMap (·.file)).contains f.id)).any
+            (fun f => f.d1 == d.1 && f.d2 == d.2)),
+        dirs1 := s.dirs1.filter (fun d =>
+          (s.dirs2.filter (fun d =>
+            (s.files.filter (fun f => (s.rows.filterMap (·.file)).contains f.id)).any
+              (fun f => f.d1 == d.1 && f.d2 == d.2))).any (·.1 == d) ||
+          (s.files.filter (fun f => (s.rows.filterMap (·.file)).contains f.id)).any (·.d1 == d)) } := by
+  rw [check_eq]
+  simp only [counterPass_fst_true, dirPass_fst_true, filePass_fst_true]
+  have h1 := rowPass_fix s.rows s [] rfl hnd (by simp)
+  have h2 := rowPass_frame true s.rows s
+  generalize (rowPass true s s.rows).1 = t at *
+  obtain ⟨rows, count, size, files, dirs1, dirs2⟩ := t
+  simp only [List.nil_append] at h1 h2
+  obtain ⟨e1, _, _⟩ := h1
+  obtain ⟨e2, e3, e4⟩ := h2
+  subst e1 e2 e3 e4
+  simp [dir2Empty]
+
+theorem check_false_snd (s : St) :
+    (check false s).2 = rowWarns s.files s.rows ++
+      (filePass false (s.rows.filterMap (·.file)) s).2 ++ (dirPass false s).2 ++ (counterPass false s).2 := by
+  rw [check_eq]
+  simp only [rowPass_nofix, filePass_fst_false, dirPass_fst_false, rowPass_warns]
+
+
+theorem fixRow_some {files : List FsFile} {r r' : CRow} (h : fixRow files r = some r') :
+    r'.rowid = r.rowid ∧ r'.file = r.file ∧
+    ∀ f, r.file = some f → ∃ ff, files.find? (·.id == f) = some ff ∧ r'.size = ff.size := by
+  cases hf : r.file with
+  | none =>
+    rw [fixRow_none hf] at h
+    cases h; simp [hf]
+  | some f =>
+    cases hff : files.find? (·.id == f) with
+    | none => rw [fixRow_missing hf hff] at h; cases h
+    | some ff =>
+      rw [fixRow_found hf hff] at h
+      cases h
+      refine ⟨rfl, hf.symm ▸ rfl, ?_⟩
+      intro f' e; cases e; exact ⟨ff, hff, rfl⟩
+
+theorem map_rowid_filterMap_sublist (files : List FsFile) (rows : List CRow) :
+    ((rows.filterMap (fixRow files)).map (·.rowid)).Sublist (rows.map (·.rowid)) := by
+  induction rows with
+  | nil => simp
+  | cons r rest ih =>
+    rw [List.filterMap_cons]
+    cases h : fixRow files r with
+    | none => simpa using ih.cons _
+    | some r' =>
+      have := (fixRow_some h).1
+      simp only [List.map_cons, this]
+      exact ih.cons_cons _
+
+
+/-! ### the repaired state, field by field -/
+
+def rows' (s : St) : List CRow := s.rows.filterMap (fixRow s.files)
+def files' (s : St) : List FsFile := s.files.filter (fun f => (s.rows.filterMap (·.file)).contains f.id)
+def dirs2' (s : St) : List (Nat × Nat) :=
+  s.dirs2.filter (fun d => (files' s).any (fun f => f.d1 == d.1 && f.d2 == d.2))
+def dirs1' (s : St) : List Nat :=
+  s.dirs1.filter (fun d => (dirs2' s).any (·.1 == d) || (files' s).any (·.d1 == d))
+
+theorem check_true_fst' (s : St) (hnd : (s.rows.map (·.rowid)).Nodup) :
+    (check true s).1 = ⟨rows' s, (rows' s).length, sumSizes (rows' s), files' s, dirs1' s, dirs2' s⟩ :=
+  check_true_fst s hnd
+
+theorem check_true_rows (s : St) (hnd : (s.rows.map (·.rowid)).Nodup) : (check true s).1.rows = rows' s := by
+  rw [check_true_fst' s hnd]
+theorem check_true_files (s : St) (hnd : (s.rows.map (·.rowid)).Nodup) : (check true s).1.files = files' s := by
+  rw [check_true_fst' s hnd]
+theorem check_true_dirs1 (s : St) (hnd : (s.rows.map (·.rowid)).Nodup) : (check true s).1.dirs1 = dirs1' s := by
+  rw [check_true_fst' s hnd]
+theorem check_true_dirs2 (s : St) (hnd : (s.rows.map (·.rowid)).Nodup) : (check true s).1.dirs2 = dirs2' s := by
+  rw [check_true_fst' s hnd]
+theorem check_true_count (s : St) (hnd : (s.rows.map (·.rowid)).Nodup) :
+    (check true s).1.count = (rows' s).length := by
+  rw [check_true_fst' s hnd]
+theorem check_true_size (s : St) (hnd : (s.rows.map (·.rowid)).Nodup) :
+    (check true s).1.size = sumSizes (rows' s) := by
+  rw [check_true_fst' s hnd]
+
+theorem mem_rows' {s : St} {r' : CRow} : r' ∈ rows' s ↔ ∃ r ∈ s.rows, fixRow s.files r = some r' := by
+  simp [rows', List.mem_filterMap]
+
+theorem mem_files' {s : St} {ff : FsFile} :
+    ff ∈ files' s ↔ ff ∈ s.files ∧ ∃ r ∈ s.rows, r.file = some ff.id := by
+  simp [files', List.mem_filter, List.mem_filterMap]
+
+theorem mem_dirs2' {s : St} {d : Nat × Nat} :
+    d ∈ dirs2' s ↔ d ∈ s.dirs2 ∧ ∃ ff ∈ files' s, ff.d1 = d.1 ∧ ff.d2 = d.2 := by
+  simp [dirs2', List.mem_filter]
+
+theorem mem_dirs1' {s : St} {d : Nat} :
+    d ∈ dirs1' s ↔ d ∈ s.dirs1 ∧ ((∃ d2 ∈ dirs2' s, d2.1 = d) ∨ ∃ ff ∈ files' s, ff.d1 = d) := by
+  simp [dirs1', List.mem_filter]
+
+
+/-! ### the warnings -/
+
+/-- which pass a warning comes from -/
+def Warn.kind : Warn → Nat
+  | .wrongSize .. => 0
+  | .notFound _ => 0
+  | .unknown _ => 1
+  | .emptyDir2 .. => 2
+  | .emptyDir1 _ => 2
+  | .count .. => 3
+  | .size .. => 4
+
+theorem kind_lt3 {w : Warn} (h : ∀ a b, w ≠ .count a b ∧ w ≠ .size a b) : w.kind < 3 := by
+  cases w <;> simp_all [Warn.kind]
+
+theorem kind_ne2 {w : Warn} (h : ∀ a b, w ≠ .emptyDir2 a b) (h' : ∀ a, w ≠ .emptyDir1 a) : w.kind ≠ 2 := by
+  cases w <;> simp_all [Warn.kind]
+
+theorem rowWarns_kind (files : List FsFile) (rows : List CRow) : ∀ w ∈ rowWarns files rows, w.kind = 0 := by
+  induction rows with
+  | nil => simp [rowWarns]
+  | cons r rest ih =>
+    intro w hw
+    rw [rowWarns] at hw
+    split at hw
+    · exact ih w hw
+    · split at hw
+      · split at hw
+        · rcases List.mem_cons.1 hw with rfl | hw
+          · rfl
+          · exact ih w hw
+        · exact ih w hw
+      · rcases List.mem_cons.1 hw with rfl | hw
+        · rfl
+        · exact ih w hw
+
+theorem rowWarns_nil_iff (files : List FsFile) (rows : List CRow) :
+    rowWarns files rows = [] ↔
+      ∀ r ∈ rows, ∀ f, r.file = some f → ∃ ff, files.find? (·.id == f) = some ff ∧ ff.size = r.size := by
+  induction rows with
+  | nil => simp [rowWarns]
+  | cons r rest ih =>
+    rw [rowWarns]
+    simp only [List.mem_cons, forall_eq_or_imp]
+    cases hf : r.file with
+    | none => simp [ih]
+    | some f =>
+      cases hff : files.find? (·.id == f) with
+      | none => simp [hff]
+      | some ff =>
+        by_cases hsz : ff.size = r.size
+        · simp [hsz, ih, hff]
+        · simp [hsz, hff]
+
+theorem filePass_kind (fix : Bool) (named : List Nat) (s : St) : ∀ w ∈ (filePass fix named s).2, w.kind = 1 := by
+  intro w hw
+  rw [filePass_snd] at hw
+  obtain ⟨f, _, rfl⟩ := List.mem_map.1 hw
+  rfl
+
+theorem filePass_snd_congr (fix fix' : Bool) (named : List Nat) (s t : St) (h : s.files = t.files) :
+    (filePass fix named s).2 = (filePass fix' named t).2 := by
+  rw [filePass_snd, filePass_snd, h]
+
+theorem filePass_nil_iff (fix : Bool) (s : St) :
+    (filePass fix (s.rows.filterMap (·.file)) s).2 = [] ↔ ∀ ff ∈ s.files, ∃ r ∈ s.rows, r.file = some ff.id := by
+  rw [filePass_snd]
+  simp [List.filter_eq_nil_iff, List.mem_filterMap]
+
+theorem dirPass_kind (fix : Bool) (s : St) : ∀ w ∈ (dirPass fix s).2, w.kind = 2 := by
+  intro w hw
+  simp only [dirPass] at hw
+  rcases List.mem_append.1 hw with hw | hw
+  · obtain ⟨d, _, rfl⟩ := List.mem_map.1 hw; rfl
+  · obtain ⟨d, _, rfl⟩ := List.mem_map.1 hw; rfl
+
+theorem dirPass_snd_congr (fix : Bool) (s t : St) (h1 : s.files = t.files) (h2 : s.dirs1 = t.dirs1)
+    (h3 : s.dirs2 = t.dirs2) : (dirPass fix s).2 = (dirPass fix t).2 := by
+  have e : dir2Empty s = dir2Empty t := by funext d; simp only [dir2Empty, h1]
+  cases fix
+  · rw [dirPass_snd_false, dirPass_snd_false]; simp only [e, h1, h2, h3]
+  · rw [dirPass_snd_true, dirPass_snd_true]; simp only [e, h1, h2, h3]
+
+theorem dirPass_false_nil_iff (s : St) :
+    (dirPass false s).2 = [] ↔
+      (∀ d ∈ s.dirs2, ∃ ff ∈ s.files, ff.d1 = d.1 ∧ ff.d2 = d.2) ∧
+      (∀ d ∈ s.dirs1, (∃ d2 ∈ s.dirs2, d2.1 = d) ∨ ∃ ff ∈ s.files, ff.d1 = d) := by
+  rw [dirPass_snd_false]
+  simp only [List.append_eq_nil_iff, List.map_eq_nil_iff, List.filter_eq_nil_iff, dir2Empty]
+  simp
+  intro _
+  constructor
+  · intro h d hd
+    by_cases h' : ∃ x, (d, x) ∈ s.dirs2
+    · exact Or.inl h'
+    · refine Or.inr (h d hd ?_)
+      intro a b hab e
+      subst e
+      exact h' ⟨b, hab⟩
+  · intro h d hd hno
+    rcases h d hd with ⟨x, hx⟩ | h
+    · exact absurd rfl (hno d x hx)
+    · exact h
+
+/-- directory warnings only grow when unknown files are removed first -/
+theorem dirPass_mono (s : St) (fs : List FsFile) (hsub : ∀ f ∈ fs, f ∈ s.files) :
+    ∀ w ∈ (dirPass false s).2, w ∈ (dirPass true { s with files := fs }).2 := by
+  intro w hw
+  rw [dirPass_snd_false] at hw
+  rw [dirPass_snd_true]
+  simp only [List.mem_append, List.mem_map, List.mem_filter, dir2Empty] at hw ⊢
+  rcases hw with ⟨d, ⟨hd, he⟩, rfl⟩ | ⟨d, ⟨hd, he⟩, rfl⟩
+  · refine Or.inl ⟨d, ⟨hd, ?_⟩, rfl⟩
+    simp only [Bool.not_eq_true', List.any_eq_false, Bool.and_eq_true, beq_iff_eq, not_and] at he ⊢
+    exact fun f hf => he f (hsub f hf)
+  · refine Or.inr ⟨d, ⟨hd, ?_⟩, rfl⟩
+    simp only [Bool.and_eq_true, Bool.not_eq_true', List.any_eq_false, beq_iff_eq, List.mem_filter,
+      and_imp] at he ⊢
+    exact ⟨fun d2 hd2 _ => he.1 d2 hd2, fun f hf => he.2 f (hsub f hf)⟩
+
+def counterWarns (c z : Int) (rows : List CRow) : List Warn :=
+  (if c = rows.length then [] else [Warn.count c rows.length]) ++
+  (if z = sumSizes rows then [] else [Warn.size z (sumSizes rows)])
+
+theorem counterPass_snd' (fix : Bool) (s : St) : (counterPass fix s).2 = counterWarns s.count s.size s.rows :=
+  counterPass_snd fix s
+
+theorem counterWarns_kind {c z : Int} {rows : List CRow} : ∀ w ∈ counterWarns c z rows, 3 ≤ w.kind := by
+  intro w hw
+  unfold counterWarns at hw
+  rcases List.mem_append.1 hw with hw | hw <;> split at hw <;> simp at hw <;> subst hw <;> simp [Warn.kind]
+
+theorem counterWarns_nil_iff {c z : Int} {rows : List CRow} :
+    counterWarns c z rows = [] ↔ c = rows.length ∧ z = sumSizes rows := by
+  unfold counterWarns
+  by_cases h1 : c = rows.length <;> by_cases h2 : z = sumSizes rows <;> simp [h1, h2]
+
+theorem count_mem_counterWarns {c z : Int} {rows : List CRow} :
+    (∃ a b, Warn.count a b ∈ counterWarns c z rows) ↔ c ≠ rows.length := by
+  unfold counterWarns
+  by_cases h1 : c = rows.length <;> by_cases h2 : z = sumSizes rows <;> simp [h1, h2]
+
+theorem size_mem_counterWarns {c z : Int} {rows : List CRow} :
+    (∃ a b, Warn.size a b ∈ counterWarns c z rows) ↔ z ≠ sumSizes rows := by
+  unfold counterWarns
+  by_cases h1 : c = rows.length <;> by_cases h2 : z = sumSizes rows <;> simp [h1, h2]
+
+theorem check_false_snd' (s : St) :
+    (check false s).2 = rowWarns s.files s.rows ++
+      (filePass false (s.rows.filterMap (·.file)) s).2 ++ (dirPass false s).2 ++
+      counterWarns s.count s.size s.rows := by
+  rw [check_false_snd, counterPass_snd']
+
+theorem check_true_snd (s : St) (hnd : (s.rows.map (·.rowid)).Nodup) :
+    ∃ c z : Int, (c = (rows' s).length ↔ s.count = s.rows.length) ∧
+      (z = sumSizes (rows' s) ↔ s.size = sumSizes s.rows) ∧
+      (check true s).2 = rowWarns s.files s.rows ++
+        (filePass false (s.rows.filterMap (·.file)) s).2 ++
+        (dirPass true { s with files := files' s }).2 ++ counterWarns c z (rows' s) := by
+  have h1 := rowPass_fix s.rows s [] rfl hnd (by simp)
+  have h2 := rowPass_frame true s.rows s
+  simp only [List.nil_append] at h1
+  refine ⟨(rowPass true s s.rows).1.count, (rowPass true s s.rows).1.size, ?_, ?_, ?_⟩
+  · rw [rows', ← h1.1]; omega
+  · rw [rows', ← h1.1]; omega
+  · rw [check_eq]
+    simp only [rowPass_warns, counterPass_snd']
+    congr 1
+    · congr 1
+      · congr 1
+        exact filePass_snd_congr _ _ _ _ _ h2.1
+      · apply dirPass_snd_congr
+        · rw [filePass_fst_true, h2.1]; rfl
+        · rw [filePass_fst_true]; exact h2.2.1
+        · rw [filePass_fst_true]; exact h2.2.2
+    · rw [dirPass_fst_true, filePass_fst_true, rows', ← h1.1]
+
 end DC.Check
